@@ -9,6 +9,7 @@ import (
 	"io"
 	"io/ioutil"
 	"net"
+	"strings"
 	"sync/atomic"
 	"time"
 
@@ -25,9 +26,13 @@ type SweepIn struct {
 	Scenario int    `json:"scenario"`
 	Silent   bool   `json:"silent"`
 	N        int    `json:"n"`
+	// ssh-simulator scenario 3: one channel request of type Req per payload, each on a session
+	// channel of its own, over one connection
+	Req      string `json:"req,omitempty"`
+	Payloads []hx.B `json:"payloads,omitempty"`
 }
 
-var sweepSvcCode = map[string]int{"vnc": 1, "ssh-simulator": 2, "ipp": 3}
+var sweepSvcCode = map[string]int{"vnc": 1, "ssh-simulator": 2, "ipp": 3, "ftp-data-plain": 4, "ftp-data-tls": 5}
 
 func be16(v uint16) []byte { b := make([]byte, 2); binary.BigEndian.PutUint16(b, v); return b }
 func be32(v uint32) []byte { b := make([]byte, 4); binary.BigEndian.PutUint32(b, v); return b }
@@ -107,6 +112,12 @@ func ippScript(sc int) [][]byte {
 }
 
 func buildSweepService(name, scratch string, ch *countChannel) services.Servicer {
+	if name == "ftp-data-plain" {
+		return buildFtpData(scratch, false, ch)
+	}
+	if name == "ftp-data-tls" {
+		return buildFtpData(scratch, true, ch)
+	}
 	if name != "ssh-simulator" {
 		return buildService(name, scratch, ch)
 	}
@@ -153,6 +164,9 @@ func (a *asyncConn) Close() error {
 // one connection of a sweep history
 func runSweepConn(svc services.Servicer, sp Spec, idx int) (ob ConnObs, gone bool) {
 	in := sp.Sweep
+	if strings.HasPrefix(in.Svc, "ftp-data") {
+		return runFtpDataConn(svc, sp, idx)
+	}
 	deadline := time.Duration(sp.DeadlineMs) * time.Millisecond
 	wait := time.Duration(sp.WaitMs) * time.Millisecond
 	lip, rip := connAddrs(sp, idx)
@@ -177,7 +191,36 @@ func runSweepConn(svc services.Servicer, sp Spec, idx int) (ob ConnObs, gone boo
 				return
 			}
 			cl := ssh.NewClient(cconn, chans, reqs)
-			if sess, err := cl.NewSession(); err == nil {
+			if in.Scenario == 3 {
+				replies := map[string]bool{"env": true, "exec": true, "shell": true, "pty-req": true, "subsystem": true}
+				for _, pl := range in.Payloads {
+					ch, rq, err := cl.OpenChannel("session", nil)
+					if err != nil {
+						break
+					}
+					go ssh.DiscardRequests(rq)
+					okc := make(chan bool, 1)
+					go func() {
+						// the reply (or, for request types the simulator does not answer, the reply to a
+						// pty-req sent after it) tells that the request has been processed
+						_, err := ch.SendRequest(in.Req, replies[in.Req], pl)
+						if err == nil && !replies[in.Req] {
+							_, err = ch.SendRequest("pty-req", true, nil)
+						}
+						okc <- err == nil
+					}()
+					stuck := false
+					select {
+					case <-okc:
+					case <-time.After(wait):
+						stuck = true
+					}
+					if stuck {
+						break // the handler does not answer any more: leave the verdict to the bounded wait
+					}
+					ch.Close()
+				}
+			} else if sess, err := cl.NewSession(); err == nil {
 				if in.Scenario == 0 {
 					if w, err := sess.StdinPipe(); err == nil {
 						sess.Shell()
